@@ -4,10 +4,10 @@ import SecsModel.Model.Txn
 /-! Driver domain `txn`: run a schedule on `Model.Txn`.
 
 `txn next <counter>`                                          → `ok <id> <counter'>`   (generated allocator)
-`txn run <atomic> <patched> <c0> <ncallers> <s1,s2,…>`        → `ok callers=… delivered=… wire=… disp=… live=… busy=… inbox=… two=…`
+`txn run <atomic> <patched> <c0> <ncallers> <s1,s2,…>`        → `ok callers=… delivered=… wire=… disp=… live=… busy=… inbox=… two=… stale=…`
                                                               or `stuck <index> <token>` when a step is not enabled.
 Step tokens: `a<c>` alloc, `i<c>` allocRmw, `t<c>` allocRet, `g<c>` register, `s<c>` send, `f<c>` sendFail, `y<c>` fire,
-`r<c>` recv, `o<c>` timeout, `u<c>` unregister, `x<sys>:<tag>` rx, `p<d>` pop, `h<d>` handle, `e<d>` finish, `D` linkDown, `U` linkUp.
+`r<c>` recv, `o<c>` timeout, `u<c>` unregister, `q<n>` rxPart (n bytes of an incomplete frame), `x<sys>:<tag>` rx, `p<d>` pop, `h<d>` handle, `e<d>` finish, `D` linkDown, `U` linkUp.
 -/
 namespace SecsModel.Drv.Txn
 open SecsModel SecsModel.Drv SecsModel.Model.Txn
@@ -29,7 +29,7 @@ def parseStep (t : String) : Option Step :=
     | 'a' => pure (.alloc n) | 'i' => pure (.allocRmw n) | 't' => pure (.allocRet n)
     | 'g' => pure (.register n) | 's' => pure (.send n) | 'f' => pure (.sendFail n) | 'y' => pure (.fire n)
     | 'r' => pure (.recv n) | 'o' => pure (.timeout n) | 'u' => pure (.unregister n)
-    | 'p' => pure (.pop n) | 'h' => pure (.handle n) | 'e' => pure (.finish n)
+    | 'p' => pure (.pop n) | 'h' => pure (.handle n) | 'e' => pure (.finish n) | 'q' => pure (.rxPart n)
     | _ => none
   | [] => none
 
@@ -54,6 +54,7 @@ def showState (n : Nat) (s : State) : String :=
     ++ s!" disp={s.disp.length} live={live s} busy={busy s}"
     ++ " inbox=" ++ showMsgs s.inbox
     ++ " two=" ++ showBool s.everTwo
+    ++ s!" stale={s.stale}"
 
 partial def runTokens (cfg : Cfg) (s : State) (idx : Nat) : List String → Except String State
   | [] => .ok s
